@@ -1,13 +1,20 @@
 #!/bin/bash
 # Rebuilds the lab binaries against /repo's CURRENT working tree (replace => /repo in lab/go.mod),
 # with the verif build tag on. Go's build cache makes this incremental.
+#   build.sh        plain binary
+#   build.sh all    plain + -race binary
+#   build.sh asan   plain + AddressSanitizer binary (C08 thorough)
 set -e
-. /verif/bin/env.sh
-cd /verif/lab
-mkdir -p /verif/.build
-exec 9>/verif/.build/.lock
+. "$(dirname "${BASH_SOURCE[0]}")/env.sh"
+cd "$VERIF_ROOT/lab"
+mkdir -p "$VERIF_ROOT/.build"
+exec 9>"$VERIF_ROOT/.build/.lock"
 flock 9
-go build -tags verif -o /verif/.build/lab ./cmd/lab 2> >(grep -v 'sqlite3-binding\|standin\|pNew\|\^\|go-sqlite3' >&2)
+filter() { grep -v 'sqlite3-binding\|standin\|pNew\|\^\|go-sqlite3' >&2 || true; }
+go build -tags verif -o "$VERIF_ROOT/.build/lab" ./cmd/lab 2> >(filter)
 if [ "$1" = "race" ] || [ "$1" = "all" ]; then
-  go build -race -tags verif -o /verif/.build/lab-race ./cmd/lab 2> >(grep -v 'sqlite3-binding\|standin\|pNew\|\^\|go-sqlite3' >&2)
+  go build -race -tags verif -o "$VERIF_ROOT/.build/lab-race" ./cmd/lab 2> >(filter)
+fi
+if [ "$1" = "asan" ]; then
+  go build -asan -tags verif -o "$VERIF_ROOT/.build/lab-asan" ./cmd/lab 2> >(filter)
 fi
